@@ -55,7 +55,7 @@ func init() {
 			"the sent set is retried before the buffered messages of the same partition and the bounce state (currentRetries / closing) is set on the same path (C02.sent-before-buffered); parked buffers are flushed in index order and cleared, and highWatermark is written only by newHighWatermark/flushRetryBuffers (C02.flush); " +
 			"one produce request in flight per broker worker: unbuffered bridge, synchronous Produce, tabled senders on brokerProducer.output (C02.single-flight); the retry queue is used strictly FIFO (C02.fifo). " +
 			"NOT covered: the interleaving argument itself, reordering with Retry.Max=0 / abandoned brokers (value- and schedule-dependent).",
-		Rules: []func(*Ctx){c02RouteOnce, c02SentBeforeBuffered, c02Recheck, c02Flush, c02RetryStateKept, c02SingleFlight, c02Fifo},
+		Rules: []func(*Ctx){c02RouteOnce, c02SentBeforeBuffered, c02Recheck, c02Flush, c02RetryStateKept, c02SingleFlight, c02Fifo, c01ErrLost},
 	})
 }
 
@@ -163,6 +163,14 @@ func c02SentBeforeBuffered(c *Ctx) {
 			if len(bs) == 0 {
 				c.Fail(rule, cb, "buffered-retry", nil, "the buffered messages of a failed partition are not retried with the sent set (dropPartition): they would be sent after the bounce ends, before the resent ones", nil)
 			}
+			// and whenever the sent set of a partition is sent round the retry loop, so are its buffered messages —
+			// whatever the error code was: buffered messages that stay behind are sent with the next request, ahead of
+			// the retried ones
+			for _, s := range reg.Find(sent) {
+				esc, path := reg.From(s.After()).Escape(buffered)
+				c.Check(!esc, rule, cb, "buffered-follow-sent", s.Instr(), "after the retry of a partition's sent set its buffered messages are retried on every path",
+					"the sent set of a partition is retried while (for some error codes) its buffered messages stay in the pending buffer: they go out with the next request and are appended before the retried, earlier messages", path)
+			}
 			for _, b := range bs {
 				it, path := reg.MustPrecede(sent, IsItem(b))
 				c.Check(it.IsZero(), rule, cb, "sent-then-buffered", b.Instr(),
@@ -242,7 +250,7 @@ func c02Flush(c *Ctx) {
 	p := c.P
 	rule := "C02.flush"
 	c.Doc(rule, "flushRetryBuffers: each level's parked buffer is sent in index order to brokerProducer.input and then cleared (buf = nil follows the loop on every path); pp.highWatermark is stored only by newHighWatermark and flushRetryBuffers")
-	c.Floor(rule, 4)
+	c.Floor(rule, 5)
 	fn := c.NeedFn(rule, "partitionProducer.flushRetryBuffers")
 	if fn == nil {
 		return
@@ -319,6 +327,31 @@ func c02Flush(c *Ctx) {
 		cc, _ := callCommon(s)
 		c.Check(!esc, rule, fn, "clear-after-handing-over:"+p.CalleeName(cc), s.In, "a parked buffer handed to "+p.CalleeName(cc)+" is cleared before the next level / return on every path",
 			"a parked buffer handed to "+p.CalleeName(cc)+" is not cleared on every path: its messages have already had their final event and are flushed again with the next level (a second event for the same message, inFlight released twice)", path)
+	}
+	// the flush descends level by level and stops only at a level that still waits for its chaser, or at level 0:
+	// every way out of the loop crosses one of those two tests (an early way out — say, after a failed leader lookup —
+	// leaves the partition parked on a level no chaser will ever release: later messages are buffered for ever)
+	if len(fi.Loops) > 0 {
+		var outer *Loop
+		for _, l := range fi.Loops {
+			if outer == nil || len(l.Blocks) > len(outer.Blocks) {
+				outer = l
+			}
+		}
+		it0 := fi.Iteration(outer)
+		r := WholeFn(fn).From(it0.Starts...)
+		stop := AnyOf{Truth{FieldLoad("partitionRetryState.expectChaser"), true}, Cmp{token.EQL, FieldLoad("partitionProducer.highWatermark"), ConstInt(0)}}
+		r.Cut = func(from, to *ssa.BasicBlock) bool {
+			return to == outer.Head || Establishes(from, to, stop)
+		}
+		left := func(it Item) bool {
+			in := it.Instr()
+			return in != nil && in.Parent() == fn && !outer.Blocks[in.Block()]
+		}
+		it, path := r.Reach(left, nil)
+		c.Check(it.IsZero(), rule, fn, "stops-only-at-chaser-or-level-0", it.Instr(), "the flush loop is left only where the level reached expects its chaser or is level 0", "the flush of the parked buffers can stop at a level that neither waits for a chaser nor is level 0 (for instance right after a failed leader lookup): highWatermark stays above 0 with nothing left to bring it down, every later message of the partition is parked for ever — no outcome, Close never returns", path)
+	} else {
+		c.Unresolved(rule, "the level loop of flushRetryBuffers")
 	}
 	// who may store highWatermark
 	allowed := map[string]bool{"partitionProducer.newHighWatermark": true, "partitionProducer.flushRetryBuffers": true}
